@@ -119,8 +119,10 @@ CSSMATCH = ObjType('CSSMatch',
 # compounds) is not modelled: a function that touches it is outside the accepted subset.
 PSEL = ObjType('_Selector', immut=dict(),
                mut=dict(tag=TOpt(SELTAG), ids=TSeq(STR), classes=TSeq(STR), attributes=TSeq(SELATTR), nth=TSeq(SELNTH), selectors=TSeq(SELLIST),
-                        rel_type=TOpt(STR), contains=TSeq(SELCONTAINS), lang=TSeq(SELLANG), flags=INT, no_match=BOOL),
+                        rel_type=TOpt(STR), contains=TSeq(SELCONTAINS), lang=TSeq(SELLANG), flags=FLAGS, no_match=BOOL),
                cls_qual='soupsieve.css_parser._Selector')
+# the token iterator handed down the recursive descent: its consumption is made explicit by a position counter
+ISEL = ObjType('iselector', immut=dict(), mut=dict(pos=INT), cls_qual=None)
 CSSPARSER = ObjType('CSSParser', immut=dict(pattern=STR, flags=INT, debug=BOOL, quirks=BOOL), mut=dict(), cls_qual='soupsieve.css_parser.CSSParser')
 
 
@@ -191,7 +193,11 @@ def install(world):
             raise Unsupported(f'{cname}(): constructor parameters {sorted(bound)} are not its fields {sorted(fields)}', node)
         v = fresh(rec, cname)
         for f, t in fields.items():
-            st.pc.append(rec.get(v.term, f) == eng.coerce(bound[f], t, node).term)
+            a = bound[f]
+            if isinstance(a, VNone) and isinstance(t, TSeq):
+                # SelectorList(selectors=None): `tuple(selectors) if selectors is not None else ()` in its __init__
+                a = V(t, z3.Empty(t.sort()))
+            st.pc.append(rec.get(v.term, f) == eng.coerce(a, t, node).term)
         if rec.none is not None:
             st.pc.append(v.term != rec.none)
         return v
